@@ -250,6 +250,10 @@ package cisco
 // is adopted by the Netspoc command and must name it as its parent: an
 // incremental change of that sub-command is sent under the parent's name.
 //vc:func mergeSubCmds
+// the table of a's sub-commands is private to this activation: merging the
+// objects a sub-command refers to re-enters mergeSubCmds (username ->
+// group-policy), which must not disturb the table of the outer command
+//vc:  invariant[C18] 2 "for _, bs := range b.sub" @lookupTableStable mapvals(m) == loopold(mapvals(m)) && mapdom(m) == loopold(mapdom(m))
 //vc:  assert[C18] after "bs.subCmdOf = a" @adoptedSubKnowsParent len(a.sub) > 0 && a.sub[len(a.sub)-1] == bs && bs.subCmdOf == a
 
 // postprocessParsed: an IOS ACL may occur several times in a raw file (its
